@@ -799,6 +799,320 @@ def mode_set(f, ctx, fn_name):
 
 
 # ----------------------------------------------------------------------------------------------------------------------
+# the `enable_*` guards of `main` (client.rs) and of the server's entry functions
+# ----------------------------------------------------------------------------------------------------------------------
+
+MAIN_RULES = r"""
+   Guards of `main`.  Origin of a variable in a function: `topLevel` = bound by `let [mut] x = config::init()?;` (the
+   configuration file as a whole - for the client the object that holds the documented top-level `mode`); `entry` = bound by
+   `let x = <topLevel>.get_current();` or a parameter whose type mentions `ServerConfig` (one element of `servers[]` / of the
+   server's list).  A guard atom is `x.mode.enable_tcp/udp/quic()`; its receiver `x.mode` is recorded as written together
+   with the origin of `x` (an `x` of another origin is refused).  The body of the client's `main` is read as top-level steps:
+   `if C {A} [else if let Some(p) = v {B} | else {B}]` with C built from guard atoms, `!`, `&&`, `||` (`guarded`), everything else
+   `plain`; an `enable_*` call anywhere else in the body is refused.  Of a range of code are recorded: the sockets it binds
+   (`let s = TcpListener::bind(..)` / `UdpSocket::bind(..)`, with the name bound), the service functions it starts (a call of a
+   top-level `fn` of the same file: `spawned` = inside the arguments of `..spawn(..)`, `awaited` = `.await` directly behind the
+   call, its arguments as base names, `task` = the variable of `v = Some(..spawn(..))` / `let v = ..spawn(..)`), and the
+   variables it awaits (`v.await`).  The evaluator `runMain` follows Rust: a task variable is `Some` iff the step that
+   assigns it ran; `if let Some(p) = v` runs iff `v` is.
+"""
+
+MAIN_PRELUDE = r"""
+/-! ## the `enable_*` guards of the client's `main` -/
+
+inductive Origin where
+  | topLevel | entry
+deriving DecidableEq, Repr
+
+inductive Pred where
+  | tcp | udp | quic
+deriving DecidableEq, Repr
+
+def Pred.eval (m : Mode) : Pred → Bool
+  | .tcp => enableTcp m
+  | .udp => enableUdp m
+  | .quic => enableQuic m
+
+/-- a guard: atoms `x.mode.enable_*()` with the receiver as written and the origin of `x` -/
+inductive GCond where
+  | atom (o : Origin) (recv : String) (p : Pred)
+  | not (c : GCond)
+  | and (a b : GCond)
+  | or (a b : GCond)
+deriving Repr
+
+/-- `top` = the top-level mode, `entry` = the `mode` key of the selected `servers[]` entry -/
+def GCond.eval (top entry : Mode) : GCond → Bool
+  | .atom .topLevel _ p => p.eval top
+  | .atom .entry _ p => p.eval entry
+  | .not c => !(c.eval top entry)
+  | .and a b => a.eval top entry && b.eval top entry
+  | .or a b => a.eval top entry || b.eval top entry
+
+def GCond.atoms : GCond → List (Origin × String × Pred)
+  | .atom o r p => [(o, r, p)]
+  | .not c => c.atoms
+  | .and a b => a.atoms ++ b.atoms
+  | .or a b => a.atoms ++ b.atoms
+
+structure Svc where
+  fn : String
+  spawned : Bool
+  awaited : Bool
+  args : List String
+  task : Option String
+deriving DecidableEq, Repr
+
+structure Acts where
+  binds : List (Open × String)
+  services : List Svc
+  awaitsVars : List String
+deriving Repr
+
+inductive ElseB where
+  | none
+  | ifLetSome (pat scrut : String) (a : Acts)
+  | block (a : Acts)
+deriving Repr
+
+inductive MainStep where
+  | guarded (c : GCond) (t : Acts) (e : ElseB)
+  | plain (a : Acts)
+deriving Repr
+
+/-- what a run of `main` did: sockets bound, services started, services whose end `main` waits for -/
+structure MainRun where
+  binds : List (Open × String) := []
+  services : List Svc := []
+  waitsFor : List String := []
+  tasks : List (String × String) := []     -- task variable ↦ the service spawned into it
+deriving Repr
+
+def Acts.run (a : Acts) (r : MainRun) : MainRun :=
+  let tasks := r.tasks ++ a.services.filterMap fun s => if s.spawned then s.task.map (fun v => (v, s.fn)) else none
+  { binds := r.binds ++ a.binds,
+    services := r.services ++ a.services,
+    waitsFor := r.waitsFor ++ (a.services.filter fun s => s.awaited && !s.spawned).map (·.fn)
+      ++ a.awaitsVars.filterMap fun v => (tasks.find? (·.1 == v)).map (·.2),
+    tasks := tasks }
+
+def runMain (top entry : Mode) : List MainStep → MainRun → MainRun
+  | [], r => r
+  | .plain a :: rest, r => runMain top entry rest (a.run r)
+  | .guarded c t e :: rest, r =>
+    if c.eval top entry then runMain top entry rest (t.run r) else
+    match e with
+    | .none => runMain top entry rest r
+    | .block a => runMain top entry rest (a.run r)
+    | .ifLetSome pat scrut a =>
+      match r.tasks.find? (·.1 == scrut) with
+      | some (_, fn) => runMain top entry rest (a.run { r with tasks := r.tasks ++ [(pat, fn)] })
+      | none => runMain top entry rest r
+"""
+
+
+def top_level_fns(f):
+    out = set()
+    for i in range(len(f.toks) - 1):
+        if f.is_id(i, "fn") and f.is_id(i + 1) and not enclosing_mods(f, i) and enclosing_impl(f, i) is None:
+            out.add(f.toks[i + 1].text)
+    return out
+
+
+def origins_of(f, fn_name, mods=()):
+    i, (plo, phi), (blo, bhi) = find_fn(f, fn_name, None, mods)
+    o = {}
+    for a, b in split_commas(f, plo, phi, angles=True):
+        while a < b and f.is_id(a, "mut"):
+            a += 1
+        if f.is_id(a) and f.is_p(a + 1, ":") and any(f.is_id(k, "ServerConfig") for k in range(a + 2, b)):
+            o[f.toks[a].text] = "entry"
+    for n, a, b in let_bindings(f, blo, bhi):
+        txt = [f.toks[k].text for k in range(a, b)]
+        if txt == ["config", "::", "init", "(", ")", "?"]:
+            o[n] = "topLevel"
+        elif len(txt) == 5 and txt[1:] == [".", "get_current", "(", ")"] and o.get(txt[0]) == "topLevel":
+            o[n] = "entry"
+        elif n in o:
+            del o[n]     # re-bound to something else
+    return o, (blo, bhi)
+
+
+def guard_atoms_in(f, lo, hi, origins):
+    """every `x.mode.enable_*()` in [lo, hi) -> [(index of `enable_*`, origin, receiver text, pred)]"""
+    out = []
+    for k in range(lo, hi):
+        if f.is_id(k) and f.toks[k].text in ("enable_tcp", "enable_udp", "enable_quic"):
+            if not (k - 4 >= lo and f.is_p(k - 1, ".") and f.is_id(k - 2, "mode") and f.is_p(k - 3, ".") and f.is_id(k - 4)
+                    and not f.is_p(k - 5, ".") and f.is_p(k + 1, "(") and f.is_p(k + 2, ")")):
+                fail("`%s` on a receiver that is not `x.mode`" % f.toks[k].text, f.toks[k].line)
+            x = f.toks[k - 4].text
+            if x not in origins:
+                fail("the origin of `%s` in `%s.mode.%s()` is not known (rules: config::init / get_current / ServerConfig parameter)"
+                     % (x, x, f.toks[k].text), f.toks[k].line)
+            out.append((k, origins[x], "%s.mode" % x, f.toks[k].text.replace("enable_", "")))
+    return out
+
+
+def parse_gcond(f, lo, hi, origins):
+    pos = [lo]
+
+    def peek(t):
+        return pos[0] < hi and f.is_p(pos[0], t)
+
+    def atom():
+        k = pos[0]
+        if peek("!"):
+            pos[0] += 1
+            return "(.not %s)" % atom()
+        if peek("("):
+            e = f.match[k]
+            inner = parse_gcond(f, k + 1, e, origins)
+            pos[0] = e + 1
+            return inner
+        if k + 7 <= hi and f.is_id(k + 4) and f.toks[k + 4].text.startswith("enable_"):
+            at = guard_atoms_in(f, k, k + 7, origins)
+            if len(at) == 1 and at[0][0] == k + 4:
+                pos[0] = k + 7
+                return "(.atom .%s %s .%s)" % (at[0][1], lstr(at[0][2]), at[0][3])
+        fail("guard `%s` (only `x.mode.enable_*()`, `!`, `&&`, `||`)" % f.render(lo, hi, 80), f.toks[lo].line)
+
+    def conj():
+        l = atom()
+        while peek("&&"):
+            pos[0] += 1
+            l = "(.and %s %s)" % (l, atom())
+        return l
+    l = conj()
+    while peek("||"):
+        pos[0] += 1
+        l = "(.or %s %s)" % (l, conj())
+    if pos[0] != hi:
+        fail("guard `%s`" % f.render(lo, hi, 80), f.toks[lo].line)
+    return l
+
+
+def acts_in(f, ctx, lo, hi, fns):
+    binds = []
+    for n, a, b in let_bindings(f, lo, hi):
+        if starts_path(f, a, a):
+            segs, gens, e = parse_path(f, a, b, strict=False)
+            kind = {("TcpListener", "bind"): ".tcp", ("UdpSocket", "bind"): ".udp", ("Endpoint", "server"): ".quic"}.get(tuple(segs[-2:]))
+            if kind and e < b and f.is_p(e, "("):
+                binds.append((kind, n))
+    if len(opens_in(f, ctx, lo, hi, {})) != len(binds):
+        fail("a socket is bound outside a plain `let s = X::bind(..)`", f.toks[lo].line)
+    services = []
+    k = lo
+    while k < hi:
+        if starts_path(f, k, lo):
+            segs, gens, e = parse_path(f, k, hi, strict=False)
+            if len(segs) == 1 and segs[0] in fns and e < hi and f.is_p(e, "("):
+                c = f.match[e]
+                args = []
+                for a, b in split_commas(f, e + 1, c):
+                    kind, v = classify_arg(f, ctx, a, b)
+                    if kind != "name":
+                        fail("argument `%s` of the service call `%s`" % (f.render(a, b, 40), segs[0]), f.toks[a].line)
+                    args.append(v)
+                awaited = c + 2 < hi + 1 and f.is_p(c + 1, ".") and f.is_id(c + 2, "await")
+                # enclosing `..spawn(`
+                spawned, task = False, None
+                for o, cl in f.match.items():
+                    if o < k < cl and f.is_p(o, "(") and lo <= o and f.is_id(o - 1, "spawn"):
+                        spawned = True
+                        # statement start: `v = Some(` / `let v =`
+                        s = o - 1
+                        while s > lo and not (f.is_p(s - 1, ";") or f.is_p(s - 1, "{") or f.is_p(s - 1, "}")):
+                            s -= 1
+                        if f.is_id(s) and f.is_p(s + 1, "=") and f.is_id(s + 2, "Some") and f.is_p(s + 3, "("):
+                            task = f.toks[s].text
+                        elif f.is_id(s, "let") and f.is_id(s + 1) and f.is_p(s + 2, "="):
+                            task = f.toks[s + 1].text
+                services.append({"fn": segs[0], "spawned": spawned, "awaited": awaited, "args": args, "task": task})
+            k = e
+        else:
+            k += 1
+    awaits = []
+    for k in range(lo, hi - 2):
+        if (f.is_id(k) and f.is_p(k + 1, ".") and f.is_id(k + 2, "await") and not (k > lo and (f.is_p(k - 1, ".") or f.is_p(k - 1, "::")))
+                and f.toks[k].text not in KEYWORDS):
+            awaits.append(f.toks[k].text)
+    return "{ binds := [%s], services := [%s], awaitsVars := [%s] }" % (
+        ", ".join("(%s, %s)" % (o, lstr(n)) for o, n in binds),
+        ", ".join("{ fn := %s, spawned := %s, awaited := %s, args := [%s], task := %s }" % (
+            lstr(s["fn"]), "true" if s["spawned"] else "false", "true" if s["awaited"] else "false",
+            ", ".join(lstr(a) for a in s["args"]), "some %s" % lstr(s["task"]) if s["task"] else "none") for s in services),
+        ", ".join(lstr(a) for a in awaits))
+
+
+def main_steps(f, ctx, fn_name):
+    origins, (lo, hi) = origins_of(f, fn_name)
+    fns = top_level_fns(f)
+    steps, covered = [], []
+    k = pending = lo
+
+    def flush(upto):
+        if pending < upto:
+            steps.append(".plain %s" % acts_in(f, ctx, pending, upto, fns))
+    while k < hi:
+        t = f.toks[k]
+        if f.is_id(k, "if") and not f.is_id(k + 1, "let"):
+            b = f.find_top(k + 1, hi, lambda j: f.is_p(j, "{"))
+            if b > 0 and guard_atoms_in(f, k + 1, b, origins):
+                flush(k)
+                cond = parse_gcond(f, k + 1, b, origins)
+                covered.append((k + 1, b))
+                tend = f.match[b]
+                then = acts_in(f, ctx, b + 1, tend, fns)
+                els, nxt = ".none", tend + 1
+                if f.is_id(tend + 1, "else"):
+                    e = tend + 2
+                    if f.is_p(e, "{"):
+                        els, nxt = "(.block %s)" % acts_in(f, ctx, e + 1, f.match[e], fns), f.match[e] + 1
+                    elif (f.is_id(e, "if") and f.is_id(e + 1, "let") and f.is_id(e + 2, "Some") and f.is_p(e + 3, "(") and f.is_id(e + 4)
+                          and f.is_p(e + 5, ")") and f.is_p(e + 6, "=") and f.is_id(e + 7) and f.is_p(e + 8, "{")):
+                        c2 = f.match[e + 8]
+                        if f.is_id(c2 + 1, "else"):
+                            fail("`else` after `else if let` in fn %s" % fn_name, f.toks[c2 + 1].line)
+                        els = "(.ifLetSome %s %s %s)" % (lstr(f.toks[e + 4].text), lstr(f.toks[e + 7].text), acts_in(f, ctx, e + 9, c2, fns))
+                        nxt = c2 + 1
+                    else:
+                        fail("`else` branch of a mode guard in fn %s" % fn_name, f.toks[tend + 1].line)
+                steps.append(".guarded %s\n      %s\n      %s" % (cond, then, els))
+                k = pending = nxt
+                continue
+        if t.kind == "punct" and t.text in OPEN:
+            k = f.match[k] + 1
+            continue
+        k += 1
+    if pending < hi:
+        steps.append(".plain %s" % acts_in(f, ctx, pending, hi, fns))
+    for idx, o, r, p in guard_atoms_in(f, lo, hi, origins):
+        if not any(a <= idx < b for a, b in covered):
+            fail("`%s.enable_%s()` outside the condition of a top-level `if` of fn %s" % (r, p, fn_name), f.toks[idx].line)
+    return steps
+
+
+def receivers_of(f, fn_name):
+    origins, (lo, hi) = origins_of(f, fn_name)
+    return ["(.%s, %s, .%s)" % (o, lstr(r), p) for _, o, r, p in guard_atoms_in(f, lo, hi, origins)]
+
+
+def emit_main(d):
+    out = [MAIN_PRELUDE]
+    out.append("/-- `main` of client.rs as steps -/")
+    out.append("def clientMain : List MainStep := [\n  %s]" % ",\n  ".join(d["clientMain"]))
+    out.append("")
+    out.append("/-- every `enable_*` guard atom of `main` / `startup` of server.rs (origin, receiver, predicate) -/")
+    out.append("def serverMainGuards : List (Origin × String × Pred) := [%s]" % ", ".join(d["serverMainGuards"]))
+    out.append("/-- the guard atoms of `startup_tcp` / `startup_udp` of server/shadowsocks.rs -/")
+    out.append("def ssGuards : List (Origin × String × Pred) := [%s]" % ", ".join(d["ssGuards"]))
+    out.append("")
+    return out
+
+
+# ----------------------------------------------------------------------------------------------------------------------
 # emission of parts 1 and 2
 # ----------------------------------------------------------------------------------------------------------------------
 
@@ -1056,6 +1370,9 @@ def extract(root):
     d["ssTcpSteps"] = steps_of(fss, ctx, "startup_tcp", summaries)
     d["ssUdpSteps"] = steps_of(fss, ctx, "startup_udp", summaries)
     d["modeSets"] = {n: mode_set(fcfg, ctx, n) for n in ("enable_tcp", "enable_udp", "enable_quic")}
+    d["clientMain"] = main_steps(fc, ctx, "main")
+    d["serverMainGuards"] = receivers_of(fs, "main") + receivers_of(fs, "startup")
+    d["ssGuards"] = receivers_of(fss, "startup_tcp") + receivers_of(fss, "startup_udp")
     return files, d
 
 
@@ -1117,6 +1434,7 @@ def emit_dispatch(d):
     out.append("def ssStartupTcpSteps : List Step := [%s]" % ",\n  ".join(d["ssTcpSteps"]))
     out.append("def ssStartupUdpSteps : List Step := [%s]" % ",\n  ".join(d["ssUdpSteps"]))
     out.append("")
+    out += emit_main(d)
     return out
 
 
@@ -1134,6 +1452,7 @@ def emit(root, files, d, keys):
     for l in keys["header"]:
         out.append("   " + l)
     out.append(RULES.rstrip("\n"))
+    out.append(MAIN_RULES.rstrip("\n"))
     out.append(keys["rules"].rstrip("\n"))
     out.append("-/")
     for imp in keys["imports"]:
